@@ -273,17 +273,49 @@ def gen():
     def cr():
         return norm(F.strip_comments(F.src(CREATED)))
 
+    def single_shape():
+        """CreatedWords::single by the ROLE of its locals: the i64 length (optionally asserted positive), its cast to the carrier,
+        the shift min(len - 1 saturating, MAX_SHIFT), one carrier bit shifted by it: `(1 as Carrier) << s` or `let b: Carrier = 1 << s`"""
+        b = norm(F.fn_body(F.strip_comments(F.src(CREATED)), "single", CREATED))
+        m = re.fullmatch(r"let (\w+)(?:: i64)? = length\.into\(\); (debug_assert!\(\1 > 0\); )?let (\w+) = \1 as Carrier; "
+                         r"let (\w+) = min\(\3\.saturating_sub\(1\), CreatedWords::MAX_SHIFT\); "
+                         r"(?:let (\w+) = \(1 as Carrier\) << \4;|let (\w+): Carrier = 1 << \4;) CreatedWords\((\w+)\)", b)
+        if not m or m.group(7) != (m.group(5) or m.group(6)):
+            raise F.FactError("shift computation of CreatedWords::single changed")
+        return m
+
     def maxv():
         m = re.search(r"const\s+MAX_VALUE\s*:\s*\w+\s*=\s*([^;]+);", cr())
         if not m:
             raise F.FactError("CreatedWords::MAX_VALUE not found")
-        if "const MAX_SHIFT: Carrier = CreatedWords::MAX_VALUE - 1;" not in cr() or "let shift = min(raw.saturating_sub(1), CreatedWords::MAX_SHIFT);" not in cr():
+        if "const MAX_SHIFT: Carrier = CreatedWords::MAX_VALUE - 1;" not in cr():
             raise F.FactError("shift computation of CreatedWords::single changed")
+        single_shape()
         return F.coq_int(F.const_eval(m.group(1)))
     fact("created_max_value", "N", "64%N", maxv)
-    fact("has_word_maybe_cmp", "string", '">="',
-         lambda: '"%s"' % cmp_of(cr(), r"if length\.into\(\) (>=|>|<=|<|==|!=) CreatedWords::MAX_VALUE as _ \{ HasWord::Maybe \}", CREATED))
-    fact("single_asserts_positive", "bool", "true", lambda: "true" if "debug_assert!(raw > 0);" in cr() else "false")
+
+    def maybe_cmp():
+        """the comparison `length <op> MAX_VALUE` under which has_word answers Maybe (the bit being set): read from
+        `if C { Maybe } else { Yes }` or `if !C' { Yes } else { Maybe }`, nested in the else block or as `else if`, either side"""
+        b = norm(F.fn_body(F.strip_comments(F.src(CREATED)), "has_word", CREATED))
+        m = re.fullmatch(r"let (\w+) = CreatedWords::single\(length\); if \(self\.0 & \1\.0\) == 0 \{ HasWord::No \} else (?:\{ )?"
+                         r"if (.+?) \{ HasWord::(Maybe|Yes) \} else \{ HasWord::(Maybe|Yes) \}(?: \})?", b)
+        if not m or m.group(3) == m.group(4):
+            raise F.FactError("comparison not found in %s (has_word: if <length ? MAX_VALUE> { Maybe | Yes } else { Yes | Maybe })" % CREATED)
+        cond = m.group(2)
+        flip = {"<": ">", ">": "<", "<=": ">=", ">=": "<=", "==": "==", "!=": "!="}
+        neg = {"<": ">=", ">=": "<", ">": "<=", "<=": ">", "==": "!=", "!=": "=="}
+        c1 = re.fullmatch(r"length\.into\(\) (>=|>|<=|<|==|!=) CreatedWords::MAX_VALUE as (?:_|i64)", cond)
+        c2 = re.fullmatch(r"CreatedWords::MAX_VALUE as (?:_|i64) (>=|>|<=|<|==|!=) length\.into\(\)", cond)
+        if c1:
+            op = c1.group(1)
+        elif c2:
+            op = flip[c2.group(1)]
+        else:
+            raise F.FactError("comparison not found in %s (has_word compares %r)" % (CREATED, cond))
+        return op if m.group(3) == "Maybe" else neg[op]
+    fact("has_word_maybe_cmp", "string", '">="', lambda: '"%s"' % maybe_cmp())
+    fact("single_asserts_positive", "bool", "true", lambda: "true" if single_shape().group(2) else "false")
 
     def tk():
         allsrc = F.strip_comments(F.src(TOK))
